@@ -639,6 +639,9 @@ REPAIRS = []
 
 
 EQUIV = [
+    dict(name='Pseries polls its step first and keeps the value to emit in one temporary', file='sc3/seq/patterns/valuepatterns.py',
+         old="                stepval = step_stream.next(inval)\n                outval = cur\n                cur += stepval\n                inval = yield outval\n",
+         new="                stepval = step_stream.next(inval)\n                outval, cur = cur, cur + stepval\n                inval = yield outval\n"),
     dict(name='Pbinop.__embed__ shortcut with the operands in order on both arms', file='sc3/seq/pattern.py',
          old='        # NOTE: See BinaryOpXStream implementation options. Class is not\n        # defined.\n\n', new='        # NOTE: See BinaryOpXStream implementation options. Class is not\n        # defined.\n\n    def __embed__(self, inval=None):\n        if isinstance(self.b, (int, float)):\n            stream, number = stm.stream(self.a), self.b\n            try:\n                while True:\n                    inval = yield self.selector(stream.next(inval), number)\n            except stm.StopStream:\n                return inval\n        elif isinstance(self.a, (int, float)):\n            stream, number = stm.stream(self.b), self.a\n            try:\n                while True:\n                    inval = yield self.selector(number, stream.next(inval))\n            except stm.StopStream:\n                return inval\n        else:\n            return (yield from super().__embed__(inval))\n\n'),
 ]
